@@ -181,16 +181,21 @@ ACheck ==
 
 (* Server: handler of connection i                                                           *)
 
-HRead(i) ==
+(* On a stream transport one Read may return fewer chunks than have been written (k of them); *)
+(* with a rendezvous transport it returns the one chunk of the pending Write.                 *)
+HReadK(i, k) ==
     /\ hpc[i] = "read"
-    /\ unread[i] # <<>> \/ dclosed[i]
     /\ IF unread[i] # <<>>
-       THEN /\ first' = [first EXCEPT ![i] = unread[i]]
-            /\ hpc' = [hpc EXCEPT ![i] = IF IsHello(unread[i]) THEN "reply" ELSE "closed"]
-       ELSE /\ first' = [first EXCEPT ![i] = <<"eof">>]
+       THEN /\ k \in 1..Len(unread[i])
+            /\ first' = [first EXCEPT ![i] = SubSeq(unread[i], 1, k)]
+            /\ hpc' = [hpc EXCEPT ![i] = IF IsHello(SubSeq(unread[i], 1, k)) THEN "reply" ELSE "closed"]
+       ELSE /\ dclosed[i] /\ k = 0
+            /\ first' = [first EXCEPT ![i] = <<"eof">>]
             /\ hpc' = [hpc EXCEPT ![i] = "closed"]
     /\ unread' = [unread EXCEPT ![i] = <<>>]
     /\ UNCHANGED <<cfgv, replied, wn, dclosed, backlog, apc, acur, lopen, tunnelS, wrappedS, cli, agr, obs>>
+
+HRead(i) == \E k \in 0..Len(unread[i]) : (Rendezvous => k = Len(unread[i])) /\ HReadK(i, k)
 
 HReply(i) ==
     /\ hpc[i] = "reply"
